@@ -30,7 +30,16 @@ func constsOfType(pkg *types.Package, nt *types.Named) map[string]string {
 	out := map[string]string{}
 	for _, n := range pkg.Scope().Names() {
 		if c, ok := pkg.Scope().Lookup(n).(*types.Const); ok && types.Identical(c.Type(), nt) {
-			out[c.Val().ExactString()] = n
+			// several names for one value (const defaultQueueOrdering = OrderingLIFO): keep the one that spells the order
+			k := c.Val().ExactString()
+			old, seen := out[k]
+			spells := func(s string) bool {
+				u := strings.ToUpper(s)
+				return strings.HasSuffix(u, "FIFO") || strings.HasSuffix(u, "LIFO") || strings.HasSuffix(u, "RANDOM")
+			}
+			if !seen || (!spells(old) && spells(n)) {
+				out[k] = n
+			}
 		}
 	}
 	return out
